@@ -30,7 +30,9 @@ def run(ctx):
                 "n = length, lower<=upper, pairwise disjoint, cover, count = members, congruence mod divisor, complete "
                 "prefix-free tree, <= 2^level leaves, moments = initial differences, empty table iff no numbers, body size = "
                 "exact byte length of the spec-encoded numbers; returned == parsed metadata modulo the divisor of single-valued "
-                "ranges. non-trivial = chunk with >1 prefix, run-length, GCD > 1 or delta")
+                "ranges. Stream floatfns: choose_max_n_prefixes, the run-length arm of push_pref (1001 / 0.8 thresholds) and "
+                "choose_run_len_jumpstart against Train.chooseMaxNPrefixes / usesRunLen / jumpstart through the guarded hook. "
+                "non-trivial = chunk with >1 prefix, run-length, GCD > 1 or delta")
     if not ctx.model_ok:
         return
     res = S.run_enc(ctx, cases(ctx))
@@ -82,3 +84,6 @@ def run(ctx):
         if bad:
             ctx.violation("chunk metadata misdescribes the chunk: " + "; ".join(bad[:6]), line, "all C10 conjuncts hold",
                           r["impl"][:600] + " :: " + r["model"][:800], kind="impl-failing-input")
+    # the f64-driven sizing decisions of training against the integer functions of the training model
+    from .. import floatstream as F
+    F.run(ctx, {"sizing"})
